@@ -4,6 +4,7 @@ package harness
 
 import (
 	"fmt"
+	"math"
 	"testing"
 	"testing/synctest"
 	"time"
@@ -74,6 +75,10 @@ func genC19(coop bool) func(t *rapid.T) c19Case {
 		} else if rapid.IntRange(0, 2).Draw(t, "overload") == 0 {
 			c.Overload = true
 			c.Stack.TimeoutMs = rapid.SampledFrom([]int{1, 2, 5, 5, 7, 10}).Draw(t, "short-timeout")
+		}
+		if !c.Overload && c.Stack.Ordering != "random" && rapid.IntRange(0, 5).Draw(t, "forever") == 0 {
+			// "wait for as long as it takes": the largest duration there is (0 would mean "library default" here)
+			c.Stack.TimeoutNs = rapid.SampledFrom([]int64{math.MaxInt64, math.MaxInt64 - 1, math.MaxInt64 / 2, int64(250 * 365 * 24 * time.Hour)}).Draw(t, "foreverNs")
 		}
 		if coop {
 			c.Yields = yieldList(rapid.SliceOfN(rapid.SampledFrom([]uint8{0, 0, 1, 1, 2, 3}), 0, 60).Draw(t, "yields"))
@@ -205,7 +210,7 @@ func runC19InBubble(c c19Case) (out kit.Outcome) {
 	}
 	// let the last holders finish, then the zero state
 	time.Sleep(time.Duration(sum+50) * time.Millisecond)
-	msg := w.unwind(time.Duration(c.Stack.TimeoutMs)*time.Millisecond + 2*time.Second)
+	msg := w.unwind(c.Stack.unwindWait())
 	w.flush()
 	if viol != nil {
 		return *viol
@@ -275,7 +280,7 @@ func runC19InBubble(c c19Case) (out kit.Outcome) {
 			fresh = append(fresh, cl)
 		}
 		if grantedNow != limit-1 {
-			w.unwind(time.Duration(c.Stack.TimeoutMs)*time.Millisecond + 2*time.Second)
+			w.unwind(c.Stack.unwindWait())
 			w.flush()
 			sig := ":over-limit-after-windows"
 			if grantedNow < limit-1 {
@@ -291,7 +296,7 @@ func runC19InBubble(c c19Case) (out kit.Outcome) {
 				synctest.Wait()
 			}
 		}
-		if msg := w.unwind(time.Duration(c.Stack.TimeoutMs)*time.Millisecond + 2*time.Second); msg != "" {
+		if msg := w.unwind(c.Stack.unwindWait()); msg != "" {
 			w.flush()
 			return kit.Viol(kind+":stuck", "%s", msg)
 		}
@@ -306,7 +311,7 @@ func runC19InBubble(c c19Case) (out kit.Outcome) {
 			synctest.Wait() // one after the other: the backlog bound is then exact
 			wave = append(wave, cl)
 			if cl.Done && !cl.OK && waiting < c.Stack.Backlog {
-				w.unwind(time.Duration(c.Stack.TimeoutMs)*time.Millisecond + 2*time.Second)
+				w.unwind(c.Stack.unwindWait())
 				w.flush()
 				return kit.Viol(kind+":second-wave-refused", "after the first scenario, caller %d of a second wave was refused at once although only %d of %d backlog places were taken", i, waiting, c.Stack.Backlog)
 			}
@@ -318,7 +323,7 @@ func runC19InBubble(c c19Case) (out kit.Outcome) {
 				break // with a short backlog timeout some of the wave may legitimately time out
 			}
 			if !cl.Done || !cl.OK {
-				w.unwind(time.Duration(c.Stack.TimeoutMs)*time.Millisecond + 2*time.Second)
+				w.unwind(c.Stack.unwindWait())
 				w.flush()
 				return kit.Viol(kind+":second-wave", "after the first scenario, caller %d of a wave of limit+backlog=%d callers (1 ms hold each, timeout %d ms) was not served (done=%v ok=%v at +%v, arrived +%v)", i, len(wave), c.Stack.TimeoutMs, cl.Done, cl.OK, cl.RetAt, cl.Arrived)
 			}
